@@ -5,7 +5,8 @@ patch="$1"; shift
 cd /repo || exit 2
 if [ -n "$(git status --porcelain --untracked-files=no)" ]; then echo "/repo not clean"; exit 2; fi
 git apply "$patch" || { echo "patch does not apply"; exit 2; }
-trap 'git -C /repo checkout -- . ; git -C /repo status --porcelain --untracked-files=no' EXIT
+bk=$(mktemp -d /tmp/evbk-XXXX); cp -a /verif/evidence/. $bk/
+trap 'git -C /repo checkout -- . ; git -C /repo status --porcelain --untracked-files=no; rm -rf /verif/evidence; mkdir -p /verif/evidence; cp -a $bk/. /verif/evidence/; rm -rf $bk' EXIT
 cd /verif
 rc=0
 for id in "$@"; do
